@@ -355,6 +355,18 @@ impl<'a> Model<'a> {
     }
 
     fn final_checks(&mut self) {
+        // a listing call must be answered (valid page or INVALID_ARGUMENT), whatever the token
+        let unanswered: Vec<String> = self
+            .tr
+            .calls
+            .iter()
+            .filter(|c| matches!(c.req, Req::ListTopics { .. } | Req::ListSubs { .. } | Req::ListTopicSubs { .. }) && c.done.is_none() && c.aborted.is_none())
+            .map(|c| format!("{:?}", c.req))
+            .collect();
+        if let Some(first) = unanswered.first() {
+            let n = unanswered.len();
+            self.v("list_call_never_answered", &["C13", "C17", "C07"], format!("{} listing call(s) were never answered, e.g. {}", n, first));
+        }
         // C01: obligations
         if self.drain_started {
             for si in 0..self.subs.len() {
@@ -365,7 +377,7 @@ impl<'a> Model<'a> {
                 if !quiet {
                     continue;
                 }
-                let missing: Vec<u64> = self.subs[si].obligations.iter().filter(|k| !self.subs[si].delivered_once.contains(k)).cloned().collect();
+                let missing: Vec<u64> = self.subs[si].obligations.iter().filter(|k| !self.subs[si].delivered_once.contains(k) && !matches!(self.subs[si].msgs.get(k), Some(Ms::Maybe) | Some(Ms::Limbo) | Some(Ms::MaybeLeased))).cloned().collect();
                 for k in missing.into_iter().take(3) {
                     let id = self.mkey_to_id.get(&k).cloned().unwrap_or_default();
                     let name = self.subs[si].name.clone();
@@ -766,7 +778,7 @@ fn check_static_rules(tr: &Trace, rep: &mut Report) {
         // any status a client can get must be a proper gRPC status; INTERNAL/UNKNOWN from a panic is caught via the panic list
     }
     if !tr.panics.is_empty() {
-        rep.violations.push(Violation { rule: "panic".into(), props: vec!["C17".into()], at: 0, detail: format!("panic(s) during the case: {:?}", tr.panics.iter().take(2).collect::<Vec<_>>()) });
+        rep.violations.push(Violation { rule: "panic".into(), props: vec!["C17".into(), "C13".into()], at: 0, detail: format!("panic(s) during the case: {:?}", tr.panics.iter().take(2).collect::<Vec<_>>()) });
     }
 }
 
@@ -786,6 +798,7 @@ pub fn analyze(tr: &Trace) -> Report {
         pull_snapshot: HashMap::new(),
         ack_snapshot: HashMap::new(),
         inflight_pubs: HashSet::new(),
+        delete_target: HashMap::new(),
         mod_snapshots: HashMap::new(),
         stream_snaps: HashMap::new(),
         walks: HashMap::new(),
@@ -849,7 +862,16 @@ pub fn analyze(tr: &Trace) -> Report {
             EvKind::Horizon { pending } => {
                 if !pending.is_empty() {
                     let kinds: Vec<String> = pending.iter().take(6).map(|c| format!("{}#{}", req_kind(&tr.calls[*c].req), c)).collect();
-                    m.v("calls_pending_forever", &["C07"], format!("{} call(s) still pending after the clock advanced by an hour with nothing runnable: {:?}", pending.len(), kinds));
+                    let on_deleted = pending.iter().any(|c| {
+                        let sub = match &tr.calls[*c].req {
+                            Req::Pull { sub, .. } | Req::Ack { sub, .. } | Req::Modify { sub, .. } | Req::StreamOpen { sub, .. } => Some(sub),
+                            Req::DeleteSub { name } | Req::GetSub { name } => Some(name),
+                            _ => None,
+                        };
+                        sub.map(|s| tr.calls.iter().any(|d| matches!(&d.req, Req::DeleteSub { name } if name == s))).unwrap_or(false)
+                    });
+                    let props: &[&str] = if on_deleted { &["C07", "C12"] } else { &["C07"] };
+                    m.v("calls_pending_forever", props, format!("{} call(s) still pending after the clock advanced by an hour with nothing runnable: {:?}", pending.len(), kinds));
                 }
             }
             EvKind::DrainStart => m.drain_started = true,
